@@ -105,6 +105,10 @@ class ParseFlowRoute(Section):
 
     def post(self) -> bool:
         route: Any = self.scope.get_route()
+        try:
+            route.nlri.settle_family()
+        except ValueError as exc:
+            return self.error.set(str(exc))
         # Recreate NLRI with correct SAFI if RD is present
         # (avoids SAFI mutation which is incompatible with class-level SAFI)
         if route.nlri.rd is not RouteDistinguisher.NORD and route.nlri.safi != SAFI.flow_vpn:
